@@ -29,7 +29,7 @@ fn explore(api: &Api, setting_ix: usize, pi: usize, seed: u64, cx: &mut Cx) {
     let (setup, reg, honest, other_login) = match world {
         Ok(w) => w,
         Err(e) => {
-            cx.violate_case(&format!("{}/error", e.step), format!("honest step {} failed: {:?}", e.step, e.e), json!({"registered": desc(&base.pw)}));
+            cx.violate_case(&format!("honest-step/{}", e.step), format!("honest step {} failed: {:?}", e.step, e.e), json!({"registered": desc(&base.pw)}));
             return;
         }
     };
@@ -43,10 +43,10 @@ fn explore(api: &Api, setting_ix: usize, pi: usize, seed: u64, cx: &mut Cx) {
         cx.path();
         cx.edges += 3;
         let r = (|| -> Result<(), (String, String)> {
-            let (ke1, cl) = api.login_start(&mut t, pw2).map_err(|e| ("login_start/error".to_string(), format!("{:?}", e)))?;
+            let (ke1, cl) = api.login_start(&mut t, pw2).map_err(|e| ("honest-step/login_start".to_string(), format!("{:?}", e)))?;
             let (ke2, sl) = api
                 .slogin_start(&mut t, &Blob::n(&setup), Some(&Blob::n(&reg.file)), &Blob::n(&ke1), &base.cid, o(&base.ctx), o(&base.idu), o(&base.ids))
-                .map_err(|e| ("slogin_start/error".to_string(), format!("{:?}", e)))?;
+                .map_err(|e| ("honest-step/slogin_start".to_string(), format!("{:?}", e)))?;
             match api.login_finish(&Blob::n(&cl), pw2, &Blob::n(&ke2), o(&base.ctx), o(&base.idu), o(&base.ids), None) {
                 Err(E::InvalidLogin) => {}
                 Err(e) => return Err(("login_finish/wrong-error".into(), format!("wrong password is rejected with {:?}, not InvalidLoginError", e))),
